@@ -1,2 +1,237 @@
-def check_wrappers(prog, rep, rule, only_semiring_used=False):
-    pass
+"""C06-D1/D2 and C08-L9: element-wise PatternedTensor methods are homomorphisms.
+
+For a wrapper method M (functional `return PatternedTensor(P(self.physical), .., .., D(self.default))` or in-place
+`self.default = D(...); self.physical.<op>_(...)`), the interpreter evaluates the body with the receiver's physical
+elements and its default both ranging over each input class; obligation: physical result == default result == the torch
+operation of that name (REF, from the tables), and the default path never raises where torch returns a value.
+"""
+from __future__ import annotations
+import ast, itertools
+from typing import Any, Dict, List, Optional, Set, Tuple
+from .domain import AV, NUM_CLASSES, NONE, const, apply, SINGLETONS
+from .interp import Interp, Unsupported, SelfObj, PTResult, Opaque, as_av
+from ..model import Program, ClassInfo, FuncInfo, AnalysisError, own_nodes, norm, names_in
+from ..report import Report
+from ..util import callee_last
+
+IDX = 'fggs.indices'
+FLOAT_IN = [c for c in NUM_CLASSES if c != 'NAN']
+BOOL_IN = ['F', 'T']
+
+# method name -> (reference primitive, arity kind)
+REF = {
+    'neg_': ('neg', 'unary'), 'log_': ('log', 'unary'), 'log1p_': ('log1p', 'unary'), 'relu_': ('relu', 'unary'), 'abs_': ('abs', 'unary'),
+    'abs': ('abs', 'unary'), 'exp': ('exp', 'unary'), 'expm1': ('expm1', 'unary'), 'log': ('log', 'unary'), 'logical_not': ('logical_not', 'bool-unary'),
+    'nan_to_num_': ('nan_to_num', 'nan_to_num'),
+    'lt': ('lt', 'scalar'), 'le': ('le', 'scalar'), 'gt': ('gt', 'scalar'), 'ge': ('ge', 'scalar'), 'eq': ('eq', 'scalar'),
+    'add': ('add', 'scalar'), 'mul': ('mul', 'scalar'), 'sub': ('sub', 'scalar'), 'div': ('div', 'scalar'),
+    '__imul__': ('mul', 'scalar'), '__itruediv__': ('div', 'scalar'),
+    'clamp_min': ('clamp_min', 'scalar'), 'clamp_max': ('clamp_max', 'scalar'),
+    'to': ('ident', 'unary-opaque'),
+}
+COMM_PRIM = {'add_': 'add', 'mul_': 'mul', 'logaddexp': 'logaddexp', 'maximum': 'maximum', 'logical_or_': 'logical_or', 'logical_and_': 'logical_and'}
+
+
+def tensorlike_members(prog: Program) -> Set[str]:
+    ci = prog.cls('fggs.typing', 'TensorLike')
+    return {m for m in ci.methods if not m.startswith('_')}
+
+
+def nan_to_num_configs(prog: Program) -> List[Dict[str, AV]]:
+    """Keyword configurations used at the repo's call sites of nan_to_num_ / nan_to_num (plus the all-defaults call)."""
+    seen = {}
+    for f in prog.all_functions():
+        if f.module.name == IDX and f.cls is not None and f.name == 'nan_to_num_':
+            continue
+        for c in [x for x in own_nodes(f.node) if isinstance(x, ast.Call) and callee_last(x) in ('nan_to_num_', 'nan_to_num')]:
+            cfg = {}
+            ok = True
+            for k in c.keywords:
+                if k.arg in ('nan', 'posinf', 'neginf'):
+                    try:
+                        cfg[k.arg] = as_av(Interp(prog, f).eval(k.value, {}), k.value).with_mode('scalar')
+                    except Unsupported:
+                        ok = False
+            if ok:
+                seen[tuple(sorted((k, tuple(sorted(v.cls))) for k, v in cfg.items()))] = cfg
+    out = list(seen.values())
+    out.append({})
+    return out
+
+
+def run_method(prog: Program, m: FuncInfo, phys: AV, dflt: AV, extra: Dict[str, Any], isinst: Dict[str, bool]) -> Tuple[AV, AV]:
+    """Interpret m with receiver (phys, dflt); return (resulting physical elements, resulting default)."""
+    it = Interp(prog, m, isinst)
+    pos = m.positional_params()
+    so = SelfObj(phys, dflt)
+    env: Dict[str, Any] = {pos[0]: so}
+    for p in m.param_names():
+        if p == pos[0]:
+            continue
+        if p in extra:
+            env[p] = extra[p]
+        else:
+            d = m.param_default(p)
+            env[p] = it.eval(d, {}) if d is not None else Opaque('param:' + p)
+    ret, final = it.run(env)
+    if isinstance(ret, PTResult):
+        return as_av(ret.physical, m.node).with_mode('tensor'), as_av(ret.default, m.node).with_mode('scalar')
+    if isinstance(ret, SelfObj):
+        return ret.physical, ret.default
+    raise Unsupported(m.node, f"{m.qualname} returned {ret!r}, not a PatternedTensor")
+
+
+def check_wrappers(prog: Program, rep: Report, rule: str, only_semiring_used: bool = False) -> None:
+    pt = prog.cls(IDX, 'PatternedTensor')
+    members = tensorlike_members(prog)
+    covered = 0
+    not_covered: List[str] = []
+    n_eval = 0
+    for name, (prim, kind) in REF.items():
+        if only_semiring_used and name not in members:
+            continue
+        m = pt.methods.get(name)
+        if m is None:
+            if name in members:
+                rep.ob(rule, pt.fq(), f"PatternedTensor.{name} exists (TensorLike member)", f"{pt.module.relpath}:{pt.node.lineno}", False,
+                       'the protocol every semiring operand must implement lists this method but PatternedTensor does not define it')
+            continue
+        isinst = {}
+        pos = m.positional_params()
+        others = [p for p in pos[1:]]
+        for p in others:
+            isinst[p] = False           # scalar branch
+        ins = BOOL_IN if kind == 'bool-unary' else FLOAT_IN
+        configs: List[Dict[str, AV]] = [{}]
+        if kind == 'nan_to_num':
+            configs = nan_to_num_configs(prog)
+            ins = NUM_CLASSES
+        elif kind == 'scalar':
+            configs = [{others[0]: AV([c], 'scalar')} for c in FLOAT_IN] if others else [{}]
+        elif kind == 'unary-opaque':
+            configs = [{others[0]: Opaque('dtype')}] if others else [{}]
+        bad: List[str] = []
+        try:
+            for cfg in configs:
+                for c in ins:
+                    x_t, x_s = AV([c], 'tensor'), AV([c], 'scalar')
+                    got_p, got_d = run_method(prog, m, x_t, x_s, dict(cfg), isinst)
+                    n_eval += 1
+                    if kind == 'nan_to_num':
+                        ref = apply('nan_to_num', x_t, cfg.get('nan', AV([NONE], 'scalar')) if 'nan' in cfg else const(0.0), cfg.get('posinf', AV([NONE], 'scalar')),
+                                    cfg.get('neginf', AV([NONE], 'scalar')), mode='tensor')
+                    elif kind == 'scalar' and others:
+                        ref = apply(prim, x_t, cfg[others[0]], mode='tensor')
+                    elif kind == 'unary-opaque':
+                        ref = x_t
+                    else:
+                        ref = apply(prim, x_t, mode='tensor')
+                    cfgtxt = ', '.join(f"{k}={v}" for k, v in cfg.items() if isinstance(v, AV))
+                    tag = f"x in {c}" + (f", {cfgtxt}" if cfgtxt else '')
+                    if got_d.may_raise:
+                        bad.append(f"[{tag}] the default path raises ({got_d.why}) where torch.{prim} returns {ref}")
+                    elif got_p.cls != ref.cls:
+                        bad.append(f"[{tag}] physical elements become {got_p} but torch.{prim} gives {ref}")
+                    elif got_d.cls != ref.cls:
+                        bad.append(f"[{tag}] default becomes {got_d} but the elements it stands for become {ref}")
+        except Unsupported as u:
+            not_covered.append(f"{name}: {u}")
+            continue
+        covered += 1
+        rep.ob(rule, m.fq(), f"PatternedTensor.{name}: physical path == default path == torch.{prim} on every input class", m.loc(), not bad,
+               '; '.join(bad[:4]) + (f" (+{len(bad) - 4} more)" if len(bad) > 4 else '') if bad else f"{len(configs) * len(ins)} class/parameter combinations agree")
+    rep.analysed['wrapper_methods_covered'] = covered
+    rep.analysed['wrapper_evaluations'] = n_eval
+    rep.analysed['wrapper_methods_not_covered'] = not_covered
+    rep.floor(rule.split(' ')[0] + ' wrappers covered', covered, 12 if only_semiring_used else 22)
+    if not_covered:
+        for nc in not_covered:
+            rep.error(f"{rule}: wrapper not interpretable: {nc}")
+
+
+# ------------------------------------------------------------------------------------------ commutative / binary (C06-D2)
+def check_binary(prog: Program, rep: Report, rule: str) -> None:
+    pt = prog.cls(IDX, 'PatternedTensor')
+    n = 0
+    for m in pt.methods.values():
+        for call in [x for x in own_nodes(m.node) if isinstance(x, ast.Call) and isinstance(x.func, ast.Attribute) and x.func.attr == 'commutative']:
+            if len(call.args) != 4:
+                rep.error(f"{rule}: {m.loc(call)} commutative(...) call with {len(call.args)} arguments")
+                continue
+            n += 1
+            t_name = norm(call.func.value)
+            u_arg, ident, dflt, lam = call.args
+            u_name = norm(u_arg)
+            # primitive of the in-place lambda
+            prim = None
+            if isinstance(lam, ast.Lambda):
+                b = lam.body
+                if isinstance(b, ast.Call):
+                    nm = callee_last(b)
+                    prim = COMM_PRIM.get(nm or '')
+            if prim is None:
+                rep.error(f"{rule}: {m.loc(call)} cannot identify the in-place operation `{norm(lam)[:60]}`")
+                continue
+            ins = BOOL_IN if prim.startswith('logical') else FLOAT_IN
+            # (1) the operation is the one the method is named after
+            want = {'__add__': 'add', '__mul__': 'mul'}.get(m.name, m.name)
+            rep.ob(rule, m.fq(), f"{m.name}: in-place operation of the pattern-aware path is torch.{want}", m.loc(call), prim == want,
+                   f"lambda applies `{prim}`")
+            # (2) identity
+            try:
+                iv = as_av(Interp(prog, m).eval(ident, {}), ident)
+            except Unsupported as u:
+                rep.error(f"{rule}: {m.loc(call)} identity argument: {u}"); continue
+            bad = []
+            for c in ins:
+                x = AV([c], 'tensor')
+                if apply(prim, iv.with_mode('tensor'), x, mode='tensor').cls != {c} or apply(prim, x, iv.with_mode('tensor'), mode='tensor').cls != {c}:
+                    bad.append(c)
+            rep.ob(rule, m.fq(), f"{m.name}: identity argument {norm(ident)} is the identity of torch.{prim}", m.loc(call), not bad,
+                   f"{prim}({iv}, x) = x on every class" if not bad else f"{prim}({iv}, x) != x for x in {bad}: unbacked elements that keep the other operand's value would be wrong")
+            # (3) default of the result
+            badd = []
+            try:
+                for c1, c2 in itertools.product(ins, repeat=2):
+                    env = {t_name: SelfObj(AV([c1], 'tensor'), AV([c1], 'scalar')), u_name: SelfObj(AV([c2], 'tensor'), AV([c2], 'scalar'))}
+                    got = as_av(Interp(prog, m).eval(dflt, env), dflt)
+                    ref = apply(prim, AV([c1], 'tensor'), AV([c2], 'tensor'), mode='tensor')
+                    if got.may_raise:
+                        badd.append(f"({c1},{c2}) raises: {got.why}")
+                    elif got.cls != ref.cls:
+                        badd.append(f"({c1},{c2}) default {got} but torch.{prim} gives {ref}")
+            except Unsupported as u:
+                rep.error(f"{rule}: {m.loc(call)} default argument: {u}"); continue
+            rep.ob(rule, m.fq(), f"{m.name}: result default `{norm(dflt)[:60]}` == torch.{prim}(t.default, u.default)", m.loc(call), not badd,
+                   '; '.join(badd[:3]) if badd else f"{len(ins) ** 2} class pairs agree")
+    rep.floor(rule.split(' ')[0] + ' commutative calls', n, 6)
+    # sub / div: constants the pattern shortcuts compare defaults with are the right identities; result default == op on defaults
+    for name, prim, rid in (('sub', 'sub', 0), ('div', 'div', 1)):
+        m = pt.methods.get(name)
+        if m is None:
+            continue
+        other = m.positional_params()[1]
+        selfn = m.positional_params()[0]
+        for c in [x for x in own_nodes(m.node) if isinstance(x, ast.Compare) and len(x.ops) == 1 and isinstance(x.ops[0], (ast.Eq, ast.NotEq))
+                  and isinstance(x.comparators[0], ast.Constant) and norm(x.left) in (f"{selfn}.default", f"{other}.default")]:
+            k = c.comparators[0].value
+            kv = const(float(k), 'tensor')
+            okk = all(apply(prim, AV([cl], 'tensor'), kv, mode='tensor').cls == {cl} for cl in FLOAT_IN)
+            rep.ob(rule, m.fq(), f"{name}: shortcut test `{norm(c)}` compares with the right identity of torch.{prim}", m.loc(c), okk and k == rid,
+                   f"x {prim} {k} == x on every class: {okk}")
+        asg = [a for a in own_nodes(m.node) if isinstance(a, ast.Assign) and len(a.targets) == 1 and norm(a.targets[0]) == 'default']
+        for a in asg:
+            badd = []
+            try:
+                for c1, c2 in itertools.product(FLOAT_IN, repeat=2):
+                    env = {selfn: SelfObj(AV([c1], 'tensor'), AV([c1], 'scalar')), other: SelfObj(AV([c2], 'tensor'), AV([c2], 'scalar'))}
+                    got = as_av(Interp(prog, m).eval(a.value, env), a.value)
+                    ref = apply(prim, AV([c1], 'tensor'), AV([c2], 'tensor'), mode='tensor')
+                    if got.may_raise:
+                        badd.append(f"({c1},{c2}) raises: {got.why}")
+                    elif got.cls != ref.cls:
+                        badd.append(f"({c1},{c2}) default {got} but torch.{prim} gives {ref}")
+            except Unsupported as u:
+                rep.error(f"{rule}: {m.loc(a)} {u}"); continue
+            rep.ob(rule, m.fq(), f"{name}: result default `{norm(a.value)[:60]}` == torch.{prim}(self.default, other.default)", m.loc(a), not badd,
+                   '; '.join(badd[:3]) if badd else f"{len(FLOAT_IN) ** 2} class pairs agree")
